@@ -34,7 +34,8 @@ RULE = (
     "{MPS, MPO.MPS lazy, MPO.MPO lazy, sub-MPO on a site subset, sum of two MPS} x {no truncation, truncation}; "
     "every method x all six boolean options (normalize, sweep_reverse, canonize, permute_arrays, equalize_norms, inplace; "
     "quick: the 4 normalize x sweep_reverse settings x 2 complementary settings of the rest, thorough: all 64) with the "
-    "promise of each option checked; MatrixProductState.compress_site against the sequential SVD optimum."
+    "promise of each option checked; bond cap of every method (and gate_with_mpo) for caps off the doubling schedule "
+    "(9..23 and 3,5,6,7) on rank-32 targets; MatrixProductState.compress_site against the sequential SVD optimum."
 )
 
 HEADER = tm.HEADER + "From QV Require Import C09.Model.\n"
@@ -1568,6 +1569,69 @@ def options_stream(ctx):
                         break
 
 
+def bond_cap_stream(ctx):
+    """'never exceeds the requested bond dimension': every method, caps OFF any power-of-two / doubling schedule,
+    on targets whose rank really exceeds the cap (so every internal growth schedule has to be clamped)"""
+    import warnings
+
+    from quimb.tensor.tn1d.compress import _TN1D_COMPRESS_METHODS, tensor_network_1d_compress
+
+    rng = ctx.rng
+    nrng = np.random.default_rng(ctx.seed + 967)
+    caps_big = [9, 10, 11, 12, 13, 14, 15, 17, 18, 19, 20, 21, 22, 23]
+    caps_small = [3, 5, 6, 7]
+    L = 10
+    for mi, m in enumerate(_TN1D_COMPRESS_METHODS):
+        params = inspect.signature(_TN1D_COMPRESS_METHODS[m]).parameters
+        fit_like = m.startswith("fit")
+        ncaps = ctx.n(3, 10)
+        caps = rng.sample(caps_big, ncaps - 1) + [rng.choice(caps_small)]
+        for ci, cap in enumerate(caps):
+            cplx = rng.random() < 0.3
+            kind = ["mps", "mpo_mps", "wrapper"][(mi + ci) % 3]
+            rev = rng.random() < 0.5
+            seed_kw = {"seed": rng.randrange(10 ** 6)} if ("seed" in params or fit_like) else {}
+            extra = {}
+            if fit_like and m != "fit-oversample" and rng.random() < 0.35:
+                extra = {"bsz": 2}
+            cutoff = 1e-12 if extra else 0.0
+            if kind == "mps":
+                tn = rand_float_mps(nrng, L, 32, [2] * L, cplx)
+            else:
+                tn = rand_float_mps(nrng, L, 6, [2] * L, cplx)
+                A = rand_float_mpo(nrng, L, 4, [2] * L, cplx)
+            desc = {"op": "bond_cap", "method": m, "input": kind, "L": L, "complex": cplx, "max_bond": cap, "cutoff": cutoff,
+                    "sweep_reverse": rev, **extra, **seed_kw,
+                    "repro": f"MPS L={L} of rank 32 (or MPO(4).MPS(6)), method={m!r}, max_bond={cap}"}
+            ctx.count(("bond_cap", m, cap, kind), True)
+            ctx.bump("bond_cap:" + m)
+            try:
+                with warnings.catch_warnings():
+                    warnings.simplefilter("ignore")
+                    if kind == "wrapper":
+                        out = tn.gate_with_mpo(A, method=m, max_bond=cap, cutoff=cutoff, sweep_reverse=rev, **extra, **seed_kw)
+                        ref = np.asarray(A.to_dense()) @ np.asarray(tn.to_dense()).reshape(-1)
+                    else:
+                        src = tn if kind == "mps" else tn.gate_with_op_lazy(A)
+                        out = tensor_network_1d_compress(src, max_bond=cap, cutoff=cutoff, method=m, sweep_reverse=rev, **extra, **seed_kw)
+                        ref = np.asarray(src.to_dense()).reshape(-1)
+            except Exception as e:
+                ctx.violation(f"bond_cap:{m}:raised", f"{m}(max_bond={cap}) raised {type(e).__name__}: {str(e)[:150]}", desc)
+                continue
+            bonds = [int(b) for b in out.bond_sizes()]
+            desc["result_bonds"] = bonds
+            if max(bonds) > cap:
+                ctx.violation(f"bond_cap:{m}", f"{m} ({kind}, max_bond={cap}) returns bonds {bonds}: the requested cap is exceeded", desc)
+                continue
+            # sanity: nothing with bond <= cap can beat the best rank-cap approximation of any cut
+            ref = np.asarray(ref).reshape(-1)
+            got = np.asarray(out.to_dense()).reshape(-1)
+            err = float(np.linalg.norm(got - ref))
+            lower = math.sqrt(max(schmidt_tails(ref, [2] * L, cap)))
+            if err < lower * (1 - 1e-7) - 1e-12 * float(np.linalg.norm(ref)):
+                ctx.violation(f"bond_cap:{m}:below_eckart_young", f"{m}: error {err:.3e} below the best possible {lower:.3e} for bond {cap}", desc)
+
+
 def compress_site_stream(ctx):
     """MatrixProductState.compress_site(i, max_bond=k, cutoff=0): the two bonds next to the centre are truncated
     one after the other, each optimally (the error is the sequential optimum), the caps hold, the centre is i"""
@@ -1804,6 +1868,7 @@ def run(ctx):
     timed(ctx, exact_stage)
     timed(ctx, compression_stream)
     timed(ctx, options_stream)
+    timed(ctx, bond_cap_stream)
     timed(ctx, compress_site_stream)
     timed(ctx, dense_roundtrip_stream)
     timed(ctx, float_ops_stream)
